@@ -344,13 +344,13 @@ func (aquahash *Aquahash) verifyHeader(chain consensus.ChainReader, header, pare
 	}
 
 	// Verify that the gas limit remains within allowed bounds
-	diff := int64(parent.GasLimit) - int64(header.GasLimit)
-	if diff < 0 {
-		diff *= -1
+	diff := parent.GasLimit - header.GasLimit
+	if header.GasLimit > parent.GasLimit {
+		diff = header.GasLimit - parent.GasLimit
 	}
 	limit := parent.GasLimit / params.GasLimitBoundDivisor
 
-	if uint64(diff) >= limit || header.GasLimit < params.MinGasLimit {
+	if diff >= limit || header.GasLimit < params.MinGasLimit {
 		return fmt.Errorf("block %d invalid gas limit: have %d, want %d += %d", header.Number, header.GasLimit, parent.GasLimit, limit)
 	}
 	// Verify that the block number is parent's +1
